@@ -59,14 +59,14 @@ func c19CheckProp(c C19Prop, o *vt.Obs) error {
 	if c.N != 4 && c.N != 7 {
 		return fmt.Errorf("bad case: n=%d", c.N)
 	}
-	w, err := c19GetWorld(c.N, c.SRIH)
+	w, err := c19GetWorld(c.N, c.SRIH, nil)
 	if err != nil {
 		return fmt.Errorf("HARNESS: world: %w", err)
 	}
 	net, err := c19NewNet(w, c.Pools, nil, false, false, c.Lim)
 	defer net.close()
 	if err != nil {
-		return fmt.Errorf("HARNESS: network: %w", err)
+		return c19NetErr(net, err)
 	}
 	corrupt := c.Corrupt
 	err = func() error {
